@@ -15,6 +15,7 @@ import (
 	_ "go.nanomsg.org/mangos/v3/vh/c12"
 	_ "go.nanomsg.org/mangos/v3/vh/c13"
 	_ "go.nanomsg.org/mangos/v3/vh/c14"
+	_ "go.nanomsg.org/mangos/v3/vh/c16"
 	_ "go.nanomsg.org/mangos/v3/vh/c17"
 	_ "go.nanomsg.org/mangos/v3/vh/c18"
 	"go.nanomsg.org/mangos/v3/vz/vexplore"
